@@ -43,6 +43,7 @@ type Violation struct {
 }
 
 type BytesModel struct {
+	Default uint64         `json:"default"`
 	Len  uint64            `json:"len"`
 	Data map[string]uint64 `json:"data"`
 }
@@ -436,6 +437,16 @@ func (e *Engine) modelNow() (map[string]uint64, []string, map[string]*BytesModel
 			continue
 		}
 		b := &BytesModel{Len: lv[0], Data: map[string]uint64{}}
+		if def, ents, aerr := e.solver.GetArray(nb.Arr); aerr == nil {
+			b.Default = def
+			for idx, v := range ents {
+				if idx < lv[0] && v != def {
+					b.Data[fmt.Sprint(idx)] = v
+				}
+			}
+			bm[nb.Name] = b
+			continue
+		}
 		n := lv[0]
 		if n > 96 {
 			n = 96
